@@ -10,7 +10,7 @@ Documented == {"PoolTimeout", "ConnectTimeout", "ReadTimeout", "WriteTimeout",
                "ConnectError", "ReadError", "WriteError",
                "RemoteProtocolError", "LocalProtocolError", "ProxyError", "UnsupportedProtocol"}
 
-Stages == {"h11-head", "h11-body", "h2-preface", "h2-frames", "h2-hpack", "h2-status", "connect-reply",
+Stages == {"h11-head", "h11-body", "h2-preface", "h2-frames", "h2-hpack", "h2-status", "h2-shared", "connect-reply",
            "socks-greet", "socks-auth", "socks-connect", "backend", "request"}
 Causes == {"malformed", "mutated", "eof", "refused", "inject:ConnectError", "inject:ConnectTimeout",
            "inject:ReadError", "inject:ReadTimeout", "inject:WriteError", "inject:WriteTimeout", "invalid-request",
